@@ -134,7 +134,7 @@ def run(chk):
     if seq2:
         gs = guards(seq2[0][1])
         # every guard FACT (polarity resolved, conjunctions split) is the presence of the parameters themselves
-        ok = all(pat.is_(f, "V_p", "V_p is not None", binds={"p": cp[2]}) for f in pat.fact_nodes(seq2[0][1]))
+        ok = all(pat.is_(f, "V_p", "V_p is not None", binds={"p": cp[2]}) for f in pat.fact_nodes(seq2[0][1], path_sensitive=False))
         chk.ob("O13.1", "car parameters applied to every descriptor (guarded only by their presence)", ok, seq2[0][1], f"guards {[(u(t), p) for t, p in gs]}" + ("" if ok else " — mixins / cars on the other branch do not get the parameters"))
     cb = [n for n in walk_body(cl) if u(copy_section_args(n).get(cs_target)) == bvar]
     ok = bool(cb) and source.is_const(copy_section_args(cb[0]).get(cs_section), "variables")
